@@ -22,7 +22,7 @@ Qed.
 
 Lemma dt_eqb_eq : forall a b, dt_eqb a b = true <-> a = b.
 Proof.
-  intros [f|n] [f'|n']; cbn; rewrite ?Nat.eqb_eq; split; intro H; try congruence; try discriminate; inversion H; auto.
+  intros [f|n|k] [f'|n'|k']; cbn; rewrite ?Nat.eqb_eq; split; intro H; try congruence; try discriminate; inversion H; auto.
 Qed.
 
 Lemma dt_eqb_refl : forall a, dt_eqb a a = true.
@@ -358,8 +358,9 @@ Proof.
   - intros [[ty d] [Hin Hsp]]. cbn in Hsp. apply find_filter_in in Hin as [Ia [Sy Fo]].
     exists ty, d. repeat split; auto.
     + apply find_filter_in. auto.
-    + intros f' l' c' Hc. apply find_filter_in. repeat split; auto. destruct ty; [discriminate|]. cbn.
-      apply contains_spec. apply in_map_iff in Hsp as [o [E I]]. exists o. subst. auto.
+    + intros f' l' c' Hc. apply find_filter_in. repeat split; auto.
+      assert (Cn : contains d f' l' c' = true) by (apply contains_spec; apply in_map_iff in Hsp as [o [E I]]; exists o; subst; auto).
+      destruct ty; [discriminate|exact Cn|exact Cn].
   - intros [ty [d [Sy [Hin [Hsp _]]]]]. exists (ty, d). cbn. split; [|assumption].
     apply find_filter_in in Hin as [Ia [_ Fo]]. apply find_filter_in. auto.
 Qed.
@@ -370,9 +371,12 @@ Theorem highlights_are_references_in_file : forall a f l c,
 Proof.
   intros a f l c H. unfold document_highlight, find_references, find_ in *. unfold find_filter in *.
   induction a as [|[ty d] a IH]; [reflexivity|]. cbn in *.
-  destruct ty as [fn|nx]; cbn in *.
+  destruct ty as [fn|nx|k]; cbn in *.
   - destruct (contains_usage d f l c) eqn:E.
     + specialize (H (DtFilename fn) d (or_introl eq_refl)). discriminate.
+    + apply IH. intros ty' d' Hin. eapply H. eassumption.
+  - destruct (contains d f l c) eqn:E; cbn.
+    + rewrite filter_app. f_equal. apply IH. intros ty' d' Hin. eapply H. right. eassumption.
     + apply IH. intros ty' d' Hin. eapply H. eassumption.
   - destruct (contains d f l c) eqn:E; cbn.
     + rewrite filter_app. f_equal. apply IH. intros ty' d' Hin. eapply H. right. eassumption.
@@ -421,7 +425,11 @@ Proof.
   assert (LO : location_of a ty = location d) by (unfold location_of, get_or_empty; rewrite Ia; reflexivity).
   assert (Usage : forall u, In u (usages d) -> span_contains (dl_span u) f l c = true -> recorded_at fuel evs ty f l c).
   { intros u Iu Hc. rewrite <- UO in Iu. apply SU in Iu as [[]|[e [Ie Pe]]]. left. exists e, u. auto. }
-  destruct ty as [fn|nx]; cbn in Fo.
+  destruct ty as [fn|nx|k]; cbn in Fo.
+  3: { apply contains_spec in Fo as [o [Io Hc]]. unfold definition_and_usages in Io.
+       destruct (location d) as [loc|] eqn:Ld; [|eauto].
+       destruct Io as [<-|Io]; [|eauto]. apply SL in LO as [LO|[e [Ie Pe]]]; [discriminate|].
+       exfalso. destruct e; cbn in Pe; try (destruct Pe; fail); destruct Pe as [Pe|[]]; discriminate. }
   - unfold contains_usage in Fo. apply existsb_exists in Fo as [u [Iu Hc]]. eauto.
   - apply contains_spec in Fo as [o [Io Hc]]. unfold definition_and_usages in Io.
     destruct (location d) as [loc|] eqn:Ld.
